@@ -43,7 +43,7 @@ class FakeLifetime:
 
 
 class Setup:
-    def __init__(self, W, kind, n_extra, solver="manual", positive_diag=True, concrete_extra=None, preset=None, tag=""):
+    def __init__(self, W, kind, n_extra, solver="manual", positive_diag=True, concrete_extra=None, preset=None, tag="", lifetime_spec=None, zero_diag_label=None):
         import flodym.stocks as st
         from flodym.flodym_arrays import StockArray
         from .dimensions import mk_set
@@ -63,6 +63,8 @@ class Setup:
             self.dims = [T] + ex
             self.n = W.size_of(T)
             self.esizes = [W.size_of(d) for d in ex]
+            self.r0 = tuple(W.fresh_int(f"r0_{j}{tag}", 0, e) for j, e in enumerate(self.esizes)) if positive_diag == "only_r0" else None
+            r0z = [to_int(a) for a in self.r0] if self.r0 is not None else None
             from fvc import world as _world
 
             preset = preset or {}
@@ -92,7 +94,9 @@ class Setup:
                     fs = [z3.Implies(c > t, sff(t, c, *r) == 0), sff(t, c, *r) >= 0, sff(t, c, *r) <= 1]
                     fs.append(z3.Implies(z3.And(t >= c, t + 1 < zn), sff(t + 1, c, *r) <= sff(t, c, *r)))
                     fs.append(z3.Implies(z3.And(t > c), sff(t, c, *r) <= sff(t - 1, c, *r)))
-                    if positive_diag:
+                    if positive_diag == "only_r0":
+                        fs.append(z3.Implies(z3.And(t == c, c >= 0, c < zn, *[a == b for a, b in zip(r, r0z)]), sff(t, c, *r) > 0))
+                    elif positive_diag:
                         fs.append(z3.Implies(z3.And(t == c, c >= 0, c < zn), sff(t, c, *r) > 0))
                     return z3.And(*fs)
 
@@ -151,33 +155,43 @@ class Setup:
             def mkc(nm):
                 if nm in preset:
                     return StockArray(dims=ds, values=np.array(preset[nm], dtype=float, copy=True), name=nm)
-                if nm + "_values" in W.inputs and tag:
+                if nm + "_values" in W.inputs and tag and np.shape(W.inputs[nm + "_values"]) == ds.shape:
                     return StockArray(dims=ds, values=np.array(W.inputs[nm + "_values"], dtype=float), name=nm)
                 a = W.array(nm, self.dims, cls=StockArray)
-                W.inputs[nm + "_values"] = a.values.tolist()
+                W.inputs[nm + ("_values" if nm + "_values" not in W.inputs else tag + "_values")] = a.values.tolist()
                 return a
 
             stock, inflow, outflow = mkc("stock"), mkc("inflow"), mkc("outflow")
             if getattr(W, "nonneg_inflow", False):
                 inflow.values[...] = np.abs(inflow.values)
             args = dict(dims=ds, stock=stock, inflow=inflow, outflow=outflow, name="s", time_letter="t")
-            if kind != "flow" and getattr(W, "_shared_lifetime", None) is not None:
+            if kind != "flow" and getattr(W, "_shared_lifetime", None) is not None and lifetime_spec is None:
                 args["lifetime_model"] = W._shared_lifetime
                 if kind == "stock":
                     args["solver"] = solver
             elif kind != "flow":
                 shape = tuple([n] + self.esizes)
-                mean = np.array([[3.0 + rng.random() * 4 for _ in range(int(np.prod(shape[1:])) or 1)] for _ in range(n)]).reshape(shape)
-                std = np.array([[0.8 + rng.random() for _ in range(int(np.prod(shape[1:])) or 1)] for _ in range(n)]).reshape(shape)
-                which = rng.choice(["normal", "lognormal", "weibull"])
+                if lifetime_spec is not None:
+                    which, mean, std = lifetime_spec
+                else:
+                    mean = np.array([[3.0 + rng.random() * 4 for _ in range(int(np.prod(shape[1:])) or 1)] for _ in range(n)]).reshape(shape)
+                    std = np.array([[0.8 + rng.random() for _ in range(int(np.prod(shape[1:])) or 1)] for _ in range(n)]).reshape(shape)
+                    which = rng.choice(["normal", "lognormal", "weibull"])
+                    if zero_diag_label is not None:
+                        # one label combination whose lifetime is far shorter than a time step: sf[c, c] = 0 there
+                        which = "normal"
+                        mean[(slice(None),) + tuple(zero_diag_label)] = 0.01
+                        std[(slice(None),) + tuple(zero_diag_label)] = 0.001
+                self.lifetime_spec = (which, mean, std)
                 if which == "normal":
                     lt = NormalLifetime(dims=ds, time_letter="t", mean=mean, std=std)
                 elif which == "lognormal":
                     lt = LogNormalLifetime(dims=ds, time_letter="t", mean=mean, std=std)
                 else:
                     lt = WeibullLifetime(dims=ds, time_letter="t", weibull_shape=1.0 + std, weibull_scale=mean)
-                W.inputs["lifetime"] = which
-                W._shared_lifetime = lt
+                W.inputs["lifetime" + tag] = which
+                if lifetime_spec is None:
+                    W._shared_lifetime = lt
                 args["lifetime_model"] = lt
                 if kind == "stock":
                     args["solver"] = solver
@@ -452,9 +466,10 @@ class ManualSolverLoop:
     """loop contract for the forward substitution in StockDrivenDSM._compute_inflow_manual
     invariant Inv(i):  for all k < i and all r: the row equation k holds for inflow_whole_period"""
 
-    def __init__(self, W, S, stock):
+    def __init__(self, W, S, stock, only_r=None):
         self.W, self.S, self.stock = W, S, stock
         self.pre = None
+        self.only_r = only_r  # invariant restricted to one label combination (the others may have a zero diagonal)
 
     def _X(self, L):
         return _solver_workspace(L, self.S)
@@ -475,8 +490,12 @@ class ManualSolverLoop:
         stock = self.stock
         prex = self.pre
 
+        only = [to_int(a) for a in self.only_r] if self.only_r is not None else None
+
         def fact(k, *r):
             rng = [k >= 0, k < zi] + [z3.And(a >= 0, a < e) for a, e in zip(r, es)]
+            if only is not None:
+                rng += [a == b for a, b in zip(r, only)]
             return z3.Implies(z3.And(*rng), core.as_z3_bool(row_equation(W, S, prex, stock, wrap(k), tuple(wrap(a) for a in r))))
 
         W.c.add_trigger(self.name, fact)
@@ -487,7 +506,7 @@ class ManualSolverLoop:
         post_f = X.frozen()
         post = lambda *idx: wrap(post_f(tuple(idx)))
         k = W.fresh_int("inv_k", 0, i1)
-        r = tuple(W.fresh_int(f"inv_r{j}", 0, e) for j, e in enumerate(S.esizes))
+        r = tuple(self.only_r) if self.only_r is not None else tuple(W.fresh_int(f"inv_r{j}", 0, e) for j, e in enumerate(S.esizes))
         sf = S.rd(S.sf)
         W.lemma_sum_ext("manual.loop.rows_below_untouched", 0, k, lambda j: sf(k, j, *r) * post(j, *r), lambda j: sf(k, j, *r) * self.pre(j, *r))
         W.prove("manual.loop.invariant_preserved", row_equation(W, S, post, self.stock, k, r), kind="invariant", detail="row equations hold for all rows up to and including the one just solved")
@@ -541,7 +560,7 @@ STOCK_TARGETS = [
 ]
 
 
-def run_stock_driven(W, S):
+def run_stock_driven(W, S, only_r=None):
     """calls compute() on the stock-driven model of setup S under the loop / callee contracts.
     -> (outcome, reader of the prescribed stock, reader of the solver's whole-period solution or None)"""
     import flodym.stocks as st
@@ -553,7 +572,7 @@ def run_stock_driven(W, S):
         calls = []
         stubs = [(st, "solve_triangular", solve_triangular_contract(W, S, calls))]
         if s.solver == "manual":
-            lc = ManualSolverLoop(W, S, stock0)
+            lc = ManualSolverLoop(W, S, stock0, only_r=only_r)
             W.c.loop_contracts.append(lc)
             out = W.call(lambda: s.compute(), stubs=stubs)
             solution = lambda j, *r: lc.pre(j, *r)
@@ -770,8 +789,9 @@ def solved_row(W, S, stock0, solution, r):
     return x, row
 
 
-def compare_results(W, name, S1, S2, agree, rs):
-    """inflow, outflow and both cohort tables of two models coincide (given agree(k): x1(k) == x2(k))"""
+def compare_results(W, name, S1, S2, agree, rs, map2=None):
+    """inflow, outflow and both cohort tables of two models coincide (given agree(k): x1(k) == x2(k));
+    map2: label indices of S2 that correspond to the label indices r of S1 (default: the same)"""
     n = S1.n
     i1, i2 = S1.rd(S1.s.inflow.values), S2.rd(S2.s.inflow.values)
     o1, o2 = S1.rd(S1.s.outflow.values), S2.rd(S2.s.outflow.values)
@@ -788,19 +808,20 @@ def compare_results(W, name, S1, S2, agree, rs):
     for r in rs:
         tag = "" if not any(isinstance(a, int) for a in r) else f"[{','.join(map(str, r))}]"
         ag = agree[r] if isinstance(agree, dict) else agree
+        q = map2(r) if map2 is not None else r
         k = W.fresh_int("cmp_k", 0, n)
         ag(k)
-        W.prove(f"{name}.same_inflow{tag}", W.num_eq(i1(k, *r), i2(k, *r)))
+        W.prove(f"{name}.same_inflow{tag}", W.num_eq(i1(k, *r), i2(k, *q)))
         t = W.fresh_int("cmp_t", 0, n)
         c = W.fresh_int("cmp_c", 0, n)
         ag(c)
-        W.prove(f"{name}.same_stock_by_cohort{tag}", W.num_eq(sb1(t, c, *r), sb2(t, c, *r)))
-        W.prove(f"{name}.same_outflow_by_cohort{tag}", W.num_eq(ob1(t, c, *r), ob2(t, c, *r)))
+        W.prove(f"{name}.same_stock_by_cohort{tag}", W.num_eq(sb1(t, c, *r), sb2(t, c, *q)))
+        W.prove(f"{name}.same_outflow_by_cohort{tag}", W.num_eq(ob1(t, c, *r), ob2(t, c, *q)))
         # outflow = sum over cohorts of equal summands
-        W.lemma_sum_ext(f"{name}.same_outflow{tag}.summands", 0, n, lambda cc: ob1(t, cc, *r), lambda cc: ob2(t, cc, *r), using=ag)
+        W.lemma_sum_ext(f"{name}.same_outflow{tag}.summands", 0, n, lambda cc: ob1(t, cc, *r), lambda cc: ob2(t, cc, *q), using=ag)
         W.c.assume(to_real(o1(t, *r)) == to_real(W.sum1("c", 0, n, lambda cc: ob1(t, cc, *r))), why="outflow_is_sum_of_cohorts (proved in the compute units)")
-        W.c.assume(to_real(o2(t, *r)) == to_real(W.sum1("c", 0, n, lambda cc: ob2(t, cc, *r))), why="outflow_is_sum_of_cohorts (proved in the compute units)")
-        W.prove(f"{name}.same_outflow{tag}", W.num_eq(o1(t, *r), o2(t, *r)))
+        W.c.assume(to_real(o2(t, *q)) == to_real(W.sum1("c", 0, n, lambda cc: ob2(t, cc, *q))), why="outflow_is_sum_of_cohorts (proved in the compute units)")
+        W.prove(f"{name}.same_outflow{tag}", W.num_eq(o1(t, *r), o2(t, *q)))
 
 
 @unit(
@@ -1139,6 +1160,79 @@ def u_impulse(W, sk):
             nt = RA[nm][1]
             idx = tuple(W.fresh_int(f"lab_{nm}_{j}", 0, n) for j in range(nt))
             W.prove(f"labels.{nm}", W.num_eq(RA[nm][0](*idx, r0), RB[nm][0](*idx)), detail="result at label r0 = result of the model computed alone for that label")
+
+
+@unit(
+    "stocks.stock_driven.label_independence",
+    props=["C16"],
+    targets=["flodym.stocks.StockDrivenDSM.compute", "flodym.stocks.StockDrivenDSM._compute_cohorts_and_inflow", "flodym.stocks.StockDrivenDSM._compute_inflow_manual", "flodym.stocks.DynamicStockModel._compute_outflow"],
+    skeletons=lambda tier: [{"solver": "manual"}],
+    stubs=["flodym.lifetime_models.LifetimeModel.sf", "flodym.lifetime_models.LifetimeModel.pdf", "flodym.lifetime_models.UnevenTimeDim.interval_lengths", "scipy.linalg.solve_triangular"],
+    note="stock-driven model over (t, r): only label r0 is assumed to have a positive diagonal sf[c,c,r0] > 0 -- the other labels are unconstrained (their survival may vanish within the first period, where the model divides by zero); every result at r0 equals that of the model computed alone with r0's stock and survival table. The loop invariant of the manual solver is stated for r0 only.",
+)
+def u_label_independence_stock(W, sk):
+    import numpy as np
+
+    if W.symbolic:
+        A = Setup(W, "stock", 1, solver=sk["solver"], positive_diag="only_r0", tag="_A")
+        r0 = A.r0
+    else:
+        from .dimensions import ALPHA  # noqa: F401
+
+        W.sizes.setdefault(EXTRA[0], W.rng.choice([2, 3]))
+        ne = int(W.sizes[EXTRA[0]])
+        r0 = (W.rng.randrange(ne),)
+        zero = ((r0[0] + 1 + W.rng.randrange(max(1, ne - 1))) % ne,) if ne > 1 else None
+        if zero == r0:
+            zero = None
+        A = Setup(W, "stock", 1, solver=sk["solver"], tag="_A", zero_diag_label=zero)
+        W.inputs["r0"], W.inputs["zero_diagonal_label"] = list(r0), (list(zero) if zero else None)
+    n = A.n
+    with np.errstate(all="ignore"):
+        outA, stockA0, solA = run_stock_driven(W, A, only_r=r0 if W.symbolic else None)
+    W.prove("labels.compute_returns", outA.kind == "return", detail=repr(outA))
+    if outA.kind != "return":
+        return
+    sfa = A.rd(A.sf)
+    if W.symbolic:
+        pdfa = A.rd(A.pdf)
+        pre = {
+            "stock": symnp.SymArr.fresh([n], lambda idx: to_real(stockA0(wrap(idx[0]), *r0))),
+            "sf": symnp.SymArr.fresh([n, n], lambda idx: to_real(sfa(wrap(idx[0]), wrap(idx[1]), *r0))),
+            "pdf": symnp.SymArr.fresh([n, n], lambda idx: to_real(pdfa(wrap(idx[0]), wrap(idx[1]), *r0))),
+        }
+        B = Setup(W, "stock", 0, solver=sk["solver"], preset=pre, tag="_B")
+    else:
+        which, mean, std = A.lifetime_spec
+        pre = {"stock": np.array(A.s.stock.values)[:, r0[0]]}
+        B = Setup(W, "stock", 0, solver=sk["solver"], preset=pre, tag="_B", lifetime_spec=(which, mean[:, r0[0]].copy(), std[:, r0[0]].copy()))
+    outB, stockB0, solB = run_stock_driven(W, B)
+    W.prove("labels.alone_returns", outB.kind == "return", detail=repr(outB))
+    if outB.kind != "return":
+        return
+    RA, RB = _all_results(A), _all_results(B)
+    if not W.symbolic:
+        for nm in RA:
+            nt = RA[nm][1]
+            W.forall_range(f"labels.{nm}", [(0, n)] * nt, (lambda a, b: lambda idx: W.num_eq(a(*idx, *r0), b(*idx)))(RA[nm][0], RB[nm][0]), detail="result at label r0 = result of the model computed alone for that label")
+        return
+    W.prove("labels.contracts_available", solA is not None and solB is not None)
+    if solA is None or solB is None:
+        return
+    x1, row1 = solved_row(W, A, stockA0, solA, r0)
+    x2, row2 = solved_row(W, B, stockB0, solB, ())
+
+    def row2_for_A(k):
+        ok = row2(k)
+        W.c.assume(core.as_z3_bool(ok), why="row equations of the model computed alone (premise proved separately)")
+        return row_equation(W, A, lambda j, *rr: x2(j), stockA0, k, r0)
+
+    k = W.fresh_int("lab_k", 0, n)
+    W.prove("labels.rows_alone", row2(k), kind="lemma-premise")
+    agree = W.lemma_tri_unique("labels.unique", n, row1, row2_for_A, lambda k: sfa(k, k, *r0) != 0, x1, x2)
+    t = W.fresh_int("lab_t", 0, n)
+    W.prove("labels.stock", W.num_eq(RA["stock"][0](t, *r0), RB["stock"][0](t)), detail="the prescribed stock is left as given")
+    compare_results(W, "labels", A, B, agree, [r0], map2=lambda r: ())
 
 
 # ----------------------------------------------------------------------------------------
